@@ -878,6 +878,7 @@ func (fr *FuncRun) execInstr(f *Frame, st *State, ins ssa.Instruction) {
 			v = Val{T: fr.addrTerm(v.Addr), S: sInt, Addr: keepObj(v.Addr)}
 		}
 		fr.guardCheck(f, st, a, true, x.Addr, x.Pos())
+		fr.publishCheck(f, st, a, x.Val.Type(), v)
 		fr.store(st, a, x.Val.Type(), v)
 	case *ssa.FieldAddr:
 		base := fr.toAddr(f, st, x.X)
@@ -920,6 +921,11 @@ func (fr *FuncRun) execInstr(f *Frame, st *State, ins ssa.Instruction) {
 		w.MapValHeap(mt)
 		fr.heapSet(st, dom, sto(fr.heapCur(st, dom), ref, fmt.Sprintf("((as const (Array %s Bool)) false)", w.SortOf(mt.Key()))))
 		fr.heapSet(st, ml, sto(fr.heapCur(st, ml), ref, "0"))
+		if fr.eng.checkGuards {
+			// a map this function makes is not yet published in any guarded field
+			ph := fr.chanHeap("Published")
+			fr.heapSet(st, ph, sto(fr.heapCur(st, ph), ref, "0"))
+		}
 		f.regs[x] = Val{T: ref, S: sInt}
 	case *ssa.MakeSlice:
 		stype := x.Type().Underlying().(*types.Slice)
